@@ -50,9 +50,12 @@ def gen_tasks(tier, seed):
         seqs = [s for s in seqs if len(s) <= 2] + rng.sample([s for s in seqs if len(s) == 3], 40)
     for s in seqs:
         tasks.append({"kind": "seq", "ops": s, "seed": rng.randrange(10 ** 6)})
+        tasks.append({"kind": "seq", "ops": s, "seed": rng.randrange(10 ** 6), "wopts": {"time_limit": 300, "use_also_custom_timeout": True}})
     tasks.append({"kind": "getvalues"})
     for k0 in range(6):
         tasks.insert(0, {"kind": "xseq", "k0": k0, "timeout": 100 if tier == "quick" else 600})
+        # the same with a finite time limit and the wrapper's own (SIGALRM) time-out armed: optimize() takes its other branch
+        tasks.insert(0, {"kind": "xseq", "k0": k0, "wopts": {"time_limit": 300, "use_also_custom_timeout": True}, "timeout": 100 if tier == "quick" else 600})
         if tier != "quick":
             for k1 in range(6):
                 tasks.insert(0, {"kind": "xseq", "k0": k0, "k1": k1, "timeout": 900})
@@ -278,7 +281,7 @@ def _seq(task, res):
 
 def _run_seq(task):
     rng = random.Random(task["seed"])
-    w = sw.SolverWrapper()
+    w = sw.SolverWrapper(**(task.get("wopts") or {}))
     vs = w.add_variables(list(range(4)), name_prefix="v", lb=0, ub=[3, 5, 1, 7], var_type="integer")
     var = [vs[i] for i in range(4)]
     lb = [0.0] * 4
@@ -346,7 +349,10 @@ def _run_seq(task):
             ub.append(2.0)
             cost.append(0.0)
             log.append(("add_variables", len(var) - 1, None))
-    lp = hx.snapshot_unsolved(w)
+    # the LP as the real optimize() hands it to HiGHS (queued updates are flushed by optimize() itself)
+    with hx.capture() as sess:
+        w.optimize()
+    lp = sess.snaps[-1]
     return {"lb": lb, "ub": ub, "cost": cost, "offset": offset, "maximize": maximize}, lp, log
 
 
@@ -402,9 +408,9 @@ def _getvalues_problems():
 XSEQ = None
 
 
-def _xseq_source(k0=0, k1=None):
+def _xseq_source(k0=0, k1=None, wopts=None):
     from .. import xh
-    return xh.PRELUDE + xh.HX_WRAP + ("K0 = %d\nK1 = %r" % (k0, k1)) + '''
+    return xh.PRELUDE + xh.HX_WRAP + ("K0 = %d\nK1 = %r\nWOPTS = %r" % (k0, k1, wopts or {})) + '''
 from typing import List
 from crosshair.tracers import NoTracing
 from flowpaths.utils import solverwrapper as sw
@@ -420,7 +426,7 @@ def _conc(x, lo, hi):
 
 def _apply(ops):
     """run the operations on a real SolverWrapper; return (expected state, snapshot)"""
-    w = sw.SolverWrapper()
+    w = sw.SolverWrapper(**WOPTS)
     vs = w.add_variables(list(range(3)), name_prefix="v", lb=0, ub=[3, 5, 1], var_type="integer")
     var = [vs[i] for i in range(3)]
     lb = [0.0] * 3
@@ -471,7 +477,9 @@ def _apply(ops):
             ub.append(2.0)
             cost.append(0.0)
         log.append((kind, j, val))
-    lp = hx.snapshot_unsolved(w)
+    with hx.capture() as sess:          # the LP as the real optimize() hands it to HiGHS
+        w.optimize()
+    lp = sess.snaps[-1]
     return (lb, ub, cost, offset, maximize), lp
 
 def sequence(k: int, j0: int, j1: int, j2: int, v0: int, v1: int, v2: int) -> bool:
@@ -499,7 +507,7 @@ sequence(1, 0, 1, 2, 1, 1, 0)
 def _xseq(task, res):
     from .. import xh
     res["functions"] = ["SolverWrapper.queue_fix_variable/queue_set_var_lower_bound/_apply_pending_bound_updates/fix_variable/set_objective/add_variables (CrossHair, symbolic operation sequence)"]
-    src = _xseq_source(task["k0"], task.get("k1"))
+    src = _xseq_source(task["k0"], task.get("k1"), task.get("wopts"))
     out, cpu = xh.run_module(src, "c12_xseq", per_condition_timeout=task.get("timeout", 120))
     res["solver_s"] += cpu
     v = out.get("sequence", {"verdict": "error", "message": "no output"})
@@ -526,7 +534,7 @@ def replay(data):
         call = task.get("call")
         if not call:
             return False
-        r = xh.call_concretely(_xseq_source(task["k0"], task.get("k1")), "c12_xseq_replay", call[0], call[1], call[2])
+        r = xh.call_concretely(_xseq_source(task["k0"], task.get("k1"), task.get("wopts")), "c12_xseq_replay", call[0], call[1], call[2])
         print(f"  replay: {call} -> {r}")
         return r is False
     kind = task["kind"]
